@@ -105,6 +105,24 @@ CHECKS = {
                      "evaluated so far is re-validated, which is what exposes state leaking across batches.",
                 note="Trusted: recomputation with the harness objective; batches of fresh designs.",
                 ref="DESIGN.md §3 C14"),
+    "C07": dict(cat="exploration", tech="controlled thread scheduler (gates + seeded grant policies) and sys.monitoring LINE-event yield injection; oracle = serial evaluation; DB rows vs final objects",
+                text="Worker threads are parked at objective entry/exit, sync entry/exit and around every SQL execute/commit and released "
+                     "in seeded orders (uniform, round-robin, LIFO, starve-one, PCT priorities) with the SQLite busy timeout shortened so "
+                     "the locked/retry path occurs; further runs preempt at statement boundaries inside artap code. Each execution is "
+                     "compared with serial evaluation of the same batch, the call log (once per design) and the persisted rows.",
+                note="No completeness over schedules: gate/statement granularity, seeded policies; evidence lists distinct grant orders, max overlap, locked errors provoked.",
+                ref="DESIGN.md §3 C07"),
+    "C10": dict(cat="exploration", tech="runtime monitor: model-based checker (last synchronised snapshot per id) over random sync histories, read back through ProblemViewDataStore and raw rows",
+                text="Histories of mutate/sync_individual/sync_all with inf, extreme floats, numpy scalars, nested unicode custom data, "
+                     "references, repeated ids, both connection modes; stores left by real runs of eight algorithms.",
+                note="Trusted: independent JSON normaliser; NaN and integer-valued costs excluded.",
+                ref="DESIGN.md §3 C10"),
+    "C11": dict(cat="fault_enumeration", tech="crash injection: os._exit at every Python-level SQL/objective event (sqlite3.connect proxy), SIGKILL at seeded instants, strace-injected SIGKILL inside write syscalls; post-mortem verifier",
+                text="Four writers are killed at every enumerated crash point after the store exists; each death is followed by a "
+                     "post-mortem (view opens, definitions intact, returned synchronisations present with matching costs, no partial "
+                     "row, integrity_check ok). Thorough adds kills inside pwrite64/unlink of SQLite's commit via strace fault injection.",
+                note="Process death only (synchronous=0 makes power loss out of scope); RET log written with one write() on an O_APPEND fd.",
+                ref="DESIGN.md §3 C11"),
 }
 
 NOT_BUILT = "check not built yet in this session (design in DESIGN.md §3); not claimed until its monitor exists"
